@@ -153,6 +153,7 @@ RejectBase(rej, f) ==
       [] rej = "unknowncomp" -> f # "connect_get"
       [] rej = "restonly-norule" -> f # "rest"
       [] rej = "leading-undecodable" -> f # "connect_get"
+      [] rej = "leading-truncated" -> f \in {"grpc", "grpcweb", "connect_stream"}
       [] OTHER -> FALSE
 
 ChooseReject ==
@@ -163,8 +164,8 @@ ChooseReject ==
          /\ rej = "unknowncodec" => f # "rest"
          /\ rej = "noflusher" => ProtoOf(f) \notin Range(scn.cfg.protos)     \* a pass-through needs no Flusher
          /\ rej = "restonly-norule" => scn.cfg.protos = <<"rest">>
-         /\ rej = "leading-undecodable" => (scn.cfg.protos = <<"rest">> /\ f # "rest")
-         /\ rej \notin {"restonly-norule", "leading-undecodable"} /\ f # "rest" => scn.cfg.protos # <<"rest">>
+         /\ rej \in {"leading-undecodable", "leading-truncated"} => (scn.cfg.protos = <<"rest">> /\ f # "rest")
+         /\ rej \notin {"restonly-norule", "leading-undecodable", "leading-truncated"} /\ f # "rest" => scn.cfg.protos # <<"rest">>
          /\ LET meth == CASE rej = "streamtype" -> (IF f = "connect_stream" THEN "Plain" ELSE "CStream")
                           [] rej = "bidi-http1" -> "Bidi"
                           [] rej = "restonly-norule" -> "Plain"
@@ -172,7 +173,10 @@ ChooseReject ==
                           [] f = "connect_get" -> "Query"
                           [] f = "connect_stream" -> "CStream"
                           [] OTHER -> "Post"
-                fr == IF rej = "leading-undecodable" THEN [Frame(1, FALSE) EXCEPT !.fault = "undecodable"] ELSE Frame(1, FALSE)
+                fr == CASE rej = "leading-undecodable" -> [Frame(1, FALSE) EXCEPT !.fault = "undecodable"]
+                       \* the body ends before the length the leading envelope announces (what is there decodes)
+                       [] rej = "leading-truncated" -> [Frame(1, FALSE) EXCEPT !.fault = "declover"]
+                       [] OTHER -> Frame(1, FALSE)
             IN scn' = [scn EXCEPT !.cl.rej = rej, !.cl.form = f, !.cl.codec = c, !.cl.method = meth,
                                   !.cl.major = IF rej \in {"bidi-http1", "grpc-http1"} THEN 1 ELSE MajorFor(f, meth),
                                   !.cl.frames = <<fr>>,
